@@ -38,6 +38,21 @@ NAME_RELATIONS = [
     (("Supertrend", dict(period=2)), ("Supertrend", dict(period=2, multiplier=1.5, name_suffix="b"))),
     (("ATR", dict(period=2)), ("ATR", dict(period=2, name_suffix="b"))),
     (("MACD", dict(fast_period=2, slow_period=3, signal_period=2)), ("MACD", dict(fast_period=2, slow_period=3, signal_period=2, input_value="high", name_suffix="h"))),
+    # two instances of one helper-owning class that differ only in a parameter (a fast and a slow one side by side)
+    (("STOCH", dict(period=2, slow_period=2, smoothing_k=2)), ("STOCH", dict(period=3, slow_period=2, smoothing_k=2))),
+    (("STOCH", dict(period=3, slow_period=2, smoothing_k=2)), ("STOCH", dict(period=2, slow_period=2, smoothing_k=2))),
+    (("RSI", dict(period=2)), ("RSI", dict(period=3))),
+    (("RSI", dict(period=3)), ("RSI", dict(period=2))),
+    (("STDEV", dict(period=2)), ("STDEV", dict(period=3))),
+    (("BBANDS", dict(period=2)), ("BBANDS", dict(period=3))),
+    (("KC", dict(period=2)), ("KC", dict(period=3))),
+    (("TSI", dict(period=2, smooth_period=2)), ("TSI", dict(period=3, smooth_period=2))),
+    (("HMA", dict(period=4)), ("HMA", dict(period=5))),
+    (("Supertrend", dict(period=2)), ("Supertrend", dict(period=3))),
+    (("MACD", dict(fast_period=2, slow_period=3, signal_period=2)), ("MACD", dict(fast_period=2, slow_period=4, signal_period=2))),
+    (("STDEVTHRES", dict(period=2)), ("STDEVTHRES", dict(period=3))),
+    (("VWMA", dict(period=2)), ("VWMA", dict(period=3))),
+    (("aroon", dict(period=2)), ("aroon", dict(period=3))),
 ]
 
 
@@ -63,7 +78,7 @@ def obligations(tier):
             obs.append(Ob(f"A={spec_name(('ind', a, akw))} B={spec_name(('ind', b, bkw))}/n={n}", dict(A=[a, akw], B=[b, bkw], n=n), CFG,
                           weight=n * (10 if (ha or hb) else 1), budget_s=600 if tier == "quick" else 3600, max_paths=50000, selfcheck=True))
     for (a, akw), (b, bkw) in NAME_RELATIONS:
-        n = 6 if not ({a, b} & {"RSI", "Supertrend"}) else 4
+        n = 6 if not ({a, b} & {"RSI", "Supertrend", "aroon"}) else (5 if "aroon" in (a, b) else 4)
         obs.append(Ob(f"names: A={spec_name(('ind', a, akw))} B={spec_name(('ind', b, bkw))}/n={n}", dict(A=[a, akw], B=[b, bkw], n=n), CFG, weight=50, budget_s=900))
     # both members on the same collapsing timeframe: they share one candle manager and one candle list
     shared = [(("SMA", dict(period=2)), ("EMA", dict(period=2))), (("EMA", dict(period=2)), ("SMA", dict(period=2))), (("ATR", dict(period=2)), ("BBANDS", dict(period=2))),
@@ -77,6 +92,14 @@ def obligations(tier):
             n = 7
             obs.append(Ob(f"shared-timeframe {tfa}/{tfb}: A={spec_name(('ind', a, akw))} B={spec_name(('ind', b, bkw))}/n={n}",
                           dict(A=[a, dict(akw, **({"timeframe": tfa} if tfa else {}))], B=[b, dict(bkw, **({"timeframe": tfb} if tfb else {}))], n=n), CFG, weight=60, budget_s=900))
+        # A brings settings of its own for the shared timeframe (gap filling, candlestick type) over a stream with a hole:
+        # what B sees must not depend on A being there or on who was registered first
+        for extra_a in (dict(timeframe_fill=True), dict(candlestick_type="HA")):
+            if (a, b) not in (("SMA", "EMA"), ("ATR", "BBANDS")):
+                continue
+            n = 7
+            obs.append(Ob(f"shared-timeframe T2/T2, A carries {extra_a}, gapped stream: A={spec_name(('ind', a, akw))} B={spec_name(('ind', b, bkw))}/n={n}",
+                          dict(A=[a, dict(akw, timeframe="T2", **extra_a)], B=[b, dict(bkw, timeframe="T2")], n=n, gap=True), CFG, weight=60, budget_s=900))
     return obs
 
 
@@ -92,6 +115,10 @@ def run(ctx, P):
     _, _, Candle, _, Hexital = lib()
     (a, akw), (b, bkw), n = P["A"], P["B"], P["n"]
     cs_all = mk_candles(ctx, n + 1)
+    if P.get("gap"):
+        for i, c in enumerate(cs_all):
+            if i >= 2:
+                c.timestamp = ctx.const_time(GRID0 + 60 * (i + 1 + 4))      # a hole of two whole T2 buckets after the second candle
     cs, later = cs_all[:n], cs_all[n]          # `later`: one more candle appended after A has been removed
     mk = lambda name, kw: build(name, dict(kw))
     alone_later = Hexital("alone", clone(cs), [mk(b, bkw)])
